@@ -61,6 +61,21 @@ fn expect_expr_bp_with_message(p: &mut Parser, min_bp: u8, message: &str) -> boo
 }
 
 fn atom(p: &mut Parser) -> Option<MarkerClosed> {
+    // what brings delimiters of its own is no longer "directly in a condition" inside them
+    let delimited = matches!(
+        p.peek(),
+        T!['('] | T!['['] | T![if] | T![match] | T![while] | T![|] | T![||] | T![go]
+    );
+    if !delimited {
+        return atom_inner(p);
+    }
+    let outer = p.set_in_condition(false);
+    let result = atom_inner(p);
+    p.set_in_condition(outer);
+    result
+}
+
+fn atom_inner(p: &mut Parser) -> Option<MarkerClosed> {
     let result = match p.peek() {
         T![int] => {
             let m = p.open();
@@ -198,11 +213,13 @@ fn atom(p: &mut Parser) -> Option<MarkerClosed> {
             p.expect(T![if]);
 
             let cond_marker = p.open();
+            let outer = p.set_in_condition(true);
             if p.at_any(EXPR_FIRST) {
                 expect_expr_with_message(p, "expected an expression after `if`");
             } else {
                 p.advance_with_error("expected an expression after `if`");
             }
+            p.set_in_condition(outer);
             p.close(cond_marker, MySyntaxKind::EXPR_IF_COND);
 
             let then_marker = p.open();
@@ -246,11 +263,13 @@ fn atom(p: &mut Parser) -> Option<MarkerClosed> {
             p.expect(T![while]);
 
             let cond_marker = p.open();
+            let outer = p.set_in_condition(true);
             if p.at_any(EXPR_FIRST) {
                 expect_expr_with_message(p, "expected an expression after `while`");
             } else {
                 p.advance_with_error("expected an expression after `while`");
             }
+            p.set_in_condition(outer);
             p.close(cond_marker, MySyntaxKind::EXPR_WHILE_COND);
 
             let body_marker = p.open();
@@ -368,6 +387,12 @@ fn match_arm(p: &mut Parser) {
 }
 
 fn struct_literal_field_list(p: &mut Parser) {
+    let outer = p.set_in_condition(false);
+    struct_literal_field_list_inner(p);
+    p.set_in_condition(outer);
+}
+
+fn struct_literal_field_list_inner(p: &mut Parser) {
     assert!(p.at(T!['{']));
     let m = p.open();
     p.expect(T!['{']);
@@ -403,7 +428,11 @@ fn looks_like_struct_literal(p: &mut Parser) -> bool {
     }
 
     match p.nth(1) {
-        T!['}'] => true,
+        // `if done { } else { .. }`, `while busy() && waiting { };`: the braces after the
+        // condition are the body. (`if x == Empty { } { .. }` still compares with a literal.)
+        T!['}'] => {
+            !(p.in_condition() && matches!(p.nth(2), T![else] | T![;] | T!['}'] | T![eof]))
+        }
         T![ident] => matches!(p.nth(2), T![:] | T![,]),
         _ => false,
     }
@@ -491,6 +520,12 @@ fn expr_bp(p: &mut Parser, min_bp: u8) -> Option<MarkerClosed> {
 
 // ArgList = '(' Arg* ')'
 pub fn arg_list(p: &mut Parser) {
+    let outer = p.set_in_condition(false);
+    arg_list_inner(p);
+    p.set_in_condition(outer);
+}
+
+fn arg_list_inner(p: &mut Parser) {
     assert!(p.at(T!['(']));
     let m = p.open();
     p.expect(T!['(']);
